@@ -387,4 +387,6 @@ def check(rep, F, tier, replay=None):
     size_fresh_rule(rep, F)
     from ruleutil import sib_qty_rule
     sib_qty_rule(rep, F)
+    from ruleutil import recalc_all_rule
+    recalc_all_rule(rep, F)
     return rep.finish(EXPLANATION, ["the categorizer stores the address parameter unchanged (AssetCategorizer::new / TxOutputProposal::new clone it)"], ["csl-facts driver (HIR/MIR)", "tables/conway_cddl.json (set types, tag 258)", "E2 writer tables"])
